@@ -165,11 +165,88 @@ func TestVerifC10Workers(t *testing.T) {
 		b, _ := os.ReadFile(tmp)
 		return fmt.Sprintf("%s err=%v", b, err)
 	}})
+	// a fourth tree: same-named functions of the same shape in different packages, each using a
+	// different tool name; ONE signature lists all the tool names as string patterns. The literals
+	// have the same length and all-distinct letters (equal entropy), so the alerts tie on function,
+	// signature, confidence and every score and differ only in match_details.strings_matched:
+	// their order in the report must still not follow the completion order of the workers.
+	root4 := filepath.Join(scratch, "tree4")
+	tools4 := map[string]string{"a": "curl", "b": "wget", "c": "nmap"}
+	for pkg, tool := range tools4 {
+		p := filepath.Join(root4, pkg, "fetch.go")
+		os.MkdirAll(filepath.Dir(p), 0o755)
+		os.WriteFile(p, []byte("package "+pkg+"\n\nfunc Fetch(args []string) []string {\n\treturn append([]string{\""+tool+"\"}, args...)\n}\n"), 0o644)
+	}
+	os.WriteFile(filepath.Join(root4, "go.mod"), []byte("module example.com/tree4\n\ngo 1.21\n"), 0o644)
+	dbPath4 := filepath.Join(scratch, "sigs4.json")
+	{
+		db4 := jsondb.NewScanner()
+		if res, err := LoadAndFingerprint(RealFileSystem{}, filepath.Join(root4, "a", "fetch.go")); err == nil {
+			for _, x := range res {
+				if ShortFunctionName(x.FunctionName) != "Fetch" || x.GetSSAFunction() == nil {
+					continue
+				}
+				if tp := topology.ExtractTopology(x.GetSSAFunction()); tp != nil {
+					sg := detection.IndexFunction(tp, "Downloader_Fetch", "d", "HIGH", "m")
+					sg.ID = "SIG4-Fetch"
+					sg.IdentifyingFeatures.StringPatterns = []string{"curl", "nmap", "wget"}
+					db4.AddSignature(&sg)
+				}
+			}
+		}
+		db4.SaveDatabase(dbPath4)
+	}
+	const tiedName = "RunScanLogic(tree, same-named functions whose alerts differ only in strings_matched)"
+	scenarios = append(scenarios, struct {
+		name string
+		run  func() string
+	}{tiedName, func() string {
+		tmp := filepath.Join(scratch, "stdout4.json")
+		f, _ := os.Create(tmp)
+		old := os.Stdout
+		os.Stdout = f
+		err := RunScanLogic(RealFileSystem{}, RealPackageLoader{}, root4, models.ScanOptions{DBPath: dbPath4, Threshold: 0.5, DepsDepth: "direct"})
+		os.Stdout = old
+		f.Close()
+		b, _ := os.ReadFile(tmp)
+		return fmt.Sprintf("%s err=%v", b, err)
+	}})
+	// what a scenario is meant to exercise, checked on its first output ("" = it does); a scenario
+	// that lost its point is noted and not counted as nontrivial, it is never a violation
+	intent := map[string]func(out string) string{
+		tiedName: func(out string) string {
+			var rep models.ScanOutput
+			if i := strings.LastIndex(out, " err="); i < 0 || json.Unmarshal([]byte(out[:i]), &rep) != nil {
+				return "report is not JSON"
+			}
+			if len(rep.Alerts) != len(tools4) {
+				return fmt.Sprintf("%d alerts instead of %d", len(rep.Alerts), len(tools4))
+			}
+			seen := map[string]bool{}
+			for _, a := range rep.Alerts {
+				b := a
+				b.MatchDetails.StringsMatched = nil
+				c := rep.Alerts[0]
+				c.MatchDetails.StringsMatched = nil
+				x, _ := json.Marshal(b)
+				y, _ := json.Marshal(c)
+				if string(x) != string(y) {
+					return "alerts differ in more than strings_matched"
+				}
+				seen[strings.Join(a.MatchDetails.StringsMatched, "+")] = true
+			}
+			if len(seen) != len(tools4) {
+				return fmt.Sprintf("%d distinct strings_matched instead of %d", len(seen), len(tools4))
+			}
+			return ""
+		},
+	}
 	for si, sc := range scenarios {
 		if !vh.Mine(si) || r.Expired() {
 			continue
 		}
 		var got, baseline string
+		lostPoint := ""
 		orders := map[string]bool{}
 		ex := &vrt.Explorer{Bound: -1, MaxExec: 3000, OnExec: func(x *vrt.Exec, choices []int) bool {
 			r.Eval()
@@ -186,6 +263,9 @@ func TestVerifC10Workers(t *testing.T) {
 			orders[strings.Join(sched, "")] = true
 			if baseline == "" {
 				baseline = got
+				if chk := intent[sc.name]; chk != nil {
+					lostPoint = chk(got)
+				}
 			}
 			if got != baseline {
 				r.Violate("schedule/"+sc.name+"/"+vh.Hash(got), fmt.Sprintf("%s: output depends on the worker schedule %v\n%s", sc.name, choices, firstDiff(baseline, got)), map[string]interface{}{"scenario": si, "choices": choices})
@@ -196,7 +276,9 @@ func TestVerifC10Workers(t *testing.T) {
 		r.Count("traces_validated_against_impl", ex.Executions)
 		r.Count("transitions", ex.Points)
 		r.Count("states", int64(len(orders)))
-		if len(orders) >= 2 {
+		if lostPoint != "" {
+			r.Note("scenario %s no longer exercises what it was built for: %s", sc.name, lostPoint)
+		} else if len(orders) >= 2 {
 			r.Nontrivial(sc.name)
 		} else {
 			r.Note("scenario %s: only one schedule was possible", sc.name)
